@@ -281,6 +281,9 @@ def _stable_key(e: ast.expr) -> bool:
         return _stable_key(e.value)
     if isinstance(e, ast.Call) and isinstance(e.func, ast.Name) and e.func.id in ("id", "str", "len") and len(e.args) == 1 and not e.keywords:
         return _stable_key(e.args[0])
+    # `o.__getattribute__("name")`: plain attribute access, spelled out to get past a custom __getattr__
+    if isinstance(e, ast.Call) and isinstance(e.func, ast.Attribute) and e.func.attr == "__getattribute__" and len(e.args) == 1 and isinstance(e.args[0], ast.Constant) and not e.keywords:
+        return _stable_key(e.func.value)
     if isinstance(e, ast.Tuple):
         return all(_stable_key(x) for x in e.elts)
     return False
@@ -299,12 +302,18 @@ def membership_spellings(fn: ast.AST, noreturn: Set[str]) -> int:
                 # --- get-form
                 if isinstance(st, ast.Assign) and len(st.targets) == 1 and isinstance(st.targets[0], ast.Name) and i + 1 < len(blk) and isinstance(blk[i + 1], ast.If):
                     v, x, iff = st.value, st.targets[0].id, blk[i + 1]
-                    if isinstance(v, ast.Call) and isinstance(v.func, ast.Attribute) and v.func.attr == "get" and not v.keywords and (len(v.args) == 1 or (len(v.args) == 2 and isinstance(v.args[1], ast.Constant) and v.args[1].value is None)) \
+                    sentinel = v.args[1] if isinstance(v, ast.Call) and len(v.args) == 2 and isinstance(v.args[1], (ast.Name, ast.Attribute)) else None
+                    if isinstance(v, ast.Call) and isinstance(v.func, ast.Attribute) and v.func.attr == "get" and not v.keywords and (len(v.args) == 1 or (len(v.args) == 2 and isinstance(v.args[1], ast.Constant) and v.args[1].value is None) or sentinel is not None) \
                             and _stable_key(v.func.value) and _stable_key(v.args[0]):
                         t = iff.test
                         pol = None
-                        if isinstance(t, ast.Compare) and len(t.ops) == 1 and isinstance(t.left, ast.Name) and t.left.id == x and isinstance(t.comparators[0], ast.Constant) and t.comparators[0].value is None:
+                        if isinstance(t, ast.Compare) and len(t.ops) == 1 and isinstance(t.left, ast.Name) and t.left.id == x and isinstance(t.comparators[0], ast.Constant) and t.comparators[0].value is None and sentinel is None:
                             pol = True if isinstance(t.ops[0], ast.Is) else (False if isinstance(t.ops[0], ast.IsNot) else None)
+                        # a private sentinel as the default (`T.get(K, _MISSING)` ... `x is _MISSING`): the same decision, whatever T holds
+                        if sentinel is not None and isinstance(t, ast.Compare) and len(t.ops) == 1 and isinstance(t.ops[0], (ast.Is, ast.IsNot)):
+                            sides = {ast.unparse(t.left), ast.unparse(t.comparators[0])}
+                            if sides == {x, ast.unparse(sentinel)}:
+                                pol = isinstance(t.ops[0], ast.Is)
                         if pol is not None and len(_store_nodes(fn, x)) == 1:
                             none_arm, val_arm = (iff.body, iff.orelse) if pol else (iff.orelse, iff.body)
                             rest_uses = sum(_uses(s_, x) for s_ in blk[i + 2 :])
@@ -891,6 +900,16 @@ def sink_small_continuations(fn: ast.AST, noreturn: Set[str]) -> int:
                     continue
                 leaves = _chain_leaves(st)
                 open_leaves = [(o, f) for o, f in leaves if not _ends(getattr(o, f), noreturn)]
+                # a lone, small `return e` / `raise e` after a decision some of whose branches have already left: every branch ends
+                # in its own exit (`if a: pass elif b: return x` + `return y`  ==  `if a: return y elif b: return x else: return y`)
+                if len(rest) == 1 and isinstance(rest[0], (ast.Return, ast.Raise)) and len(ast.unparse(rest[0])) < 100 and 1 <= len(open_leaves) <= 3 and len(open_leaves) < len(leaves) \
+                        and all(len([x for x in getattr(o, f) if not isinstance(x, ast.Pass)]) == 0 for o, f in open_leaves):
+                    for o, f in open_leaves:
+                        setattr(o, f, [copy.deepcopy(rest[0])])
+                    del blk[i + 1 :]
+                    changed += 1
+                    did = True
+                    break
                 if len(open_leaves) < 2 or len(open_leaves) > MAX_LEAVES:
                     continue
                 # names bound by a plain assignment at the top level of every open leaf ...
